@@ -60,6 +60,28 @@ def export(image_or_path, dest=None):
         return run(os.path.join(d, "dest"))
 
 
+def _list_levels(img, depth):
+    """ls of the root and of every item reachable through the printed names down to `depth` levels (answers ignored)"""
+    def names_of(out):
+        lines = out.split("\n")
+        if len(lines) < 2 or not lines[0].startswith("Item"):
+            return []
+        w = lines[0].find("Type")
+        return [l[:w - 1].rstrip() for l in lines[2:] if l.strip()] if w > 0 else []
+    frontier = [""]
+    for _ in range(depth + 1):
+        nxt = []
+        for p in frontier:
+            try:
+                out = ls(img, p)
+            except Exception:   # noqa -- what ls answers is not this helper's business
+                continue
+            for n in names_of(out)[:6]:
+                if n.strip():
+                    nxt.append(n if p == "" else p + "/" + n)
+        frontier = nxt[:24]
+
+
 def full_run(src, cpu_s=20.0, ls_paths=("",), again=False):
     """Open + ls at given paths + export, guarded.  Returns dict with status/exception/outputs.
     again=True: the export runs on an image OBJECT and is repeated on that same object; res["again"] describes the
@@ -82,8 +104,17 @@ def full_run(src, cpu_s=20.0, ls_paths=("",), again=False):
             out2, files2, reported2 = export(obj)
             if files2 != files or sorted(reported2) != sorted(reported):
                 diff = sorted(set(files) ^ set(files2)) or [p for p in files if files2.get(p) != files[p]]
-                res["again"] = {"paths": diff[:4], "first": len(files), "second": len(files2),
+                res["again"] = {"which": "second export of one object", "paths": diff[:4], "first": len(files), "second": len(files2),
                                 "sizes": [(p, len(files[p]), len(files2.get(p, b""))) for p in diff[:2] if p in files]}
+                return
+            # ... and an export from another object whose root and first two levels were LISTED before
+            obj3 = open_image(src)
+            _list_levels(obj3, 2)
+            out3, files3, reported3 = export(obj3)
+            if files3 != files or sorted(reported3) != sorted(reported):
+                diff = sorted(set(files) ^ set(files3)) or [p for p in files if files3.get(p) != files[p]]
+                res["again"] = {"which": "export of an object that was listed first", "paths": diff[:4], "first": len(files),
+                                "second": len(files3), "sizes": [(p, len(files[p]), len(files3.get(p, b""))) for p in diff[:2] if p in files]}
 
     st, val = guarded(go, cpu_s)
     if st == "hang":
